@@ -2,9 +2,15 @@ CONSTANTS
   Dev_AdoptClientSecurity = FALSE
   Dev_IgnoreSigFailure = TRUE
   Dev_TokenKeyLimits = FALSE
+  Dev_StatusSkipsVerify = FALSE
+  Dev_CloseOnce = FALSE
+  Dev_RecycledConfig = FALSE
   Dev_AdvertiseExtra = FALSE
   Dev_DropPolicy = ""
   Dev_WrongTokenPolicy = FALSE
+  SresSet = {"good", "goodsub", "uncertain", "bad"}
+  MaxAttempts = 1
+  Histories = {"none"}
   ConfigSet = "one"
   Scripted = TRUE
   Intents = {"endpoint", "raw"}
